@@ -2,7 +2,7 @@
 EXTENDS TrainRun
 CONSTANT Ordering
 Configs == [model : {"single_instance", "centered_instance", "centroid", "bottomup"},
-            fw : {"torch_dataset", "torch_dataset_np_chunks"}, wandb : BOOLEAN, ckpt : BOOLEAN, structured : BOOLEAN]
-Init == TRInit(Configs, {Ordering})
+            fw : {"torch_dataset", "torch_dataset_np_chunks"}, wandb : BOOLEAN, ckpt : BOOLEAN, structured : BOOLEAN, lowmem : BOOLEAN]
+Init == TRInit({c \in Configs : c.lowmem => c.fw = "torch_dataset"}, {Ordering})
 Next == TRNext
 =============================================================================
